@@ -99,8 +99,100 @@ def rw_rename(tree, rel, some=False):
     return tree
 
 
+class _InsertPass(ast.NodeTransformer):
+    """a `pass` after every second statement of every function body block"""
+
+    def _blk(self, body):
+        out = []
+        for k, st in enumerate(body):
+            out.append(st)
+            if k % 2 == 0 and not isinstance(st, (ast.Return, ast.Raise, ast.Break, ast.Continue)):
+                out.append(ast.Pass())
+        return out
+
+    def generic_visit(self, node):
+        super().generic_visit(node)
+        if isinstance(node, (ast.FunctionDef, ast.For, ast.While, ast.If, ast.With)):
+            for f in ("body", "orelse"):
+                b = getattr(node, f, None)
+                if b:
+                    setattr(node, f, self._blk(b))
+        return node
+
+
+def rw_insert_pass(tree, rel):
+    return _InsertPass().visit(tree)
+
+
+class _ExpandAug(ast.NodeTransformer):
+    """x += e  ->  x = x + e   for plain names (arrays updated in place keep their augmented form)"""
+
+    def visit_AugAssign(self, node):
+        if isinstance(node.target, ast.Name) and isinstance(node.op, (ast.Add, ast.Sub, ast.Mult)) and \
+                isinstance(node.value, (ast.Constant, ast.Name)) and isinstance(getattr(node.value, "value", 1), (int, float)) and \
+                node.target.id in ("i", "j", "k", "ti", "nLoops", "nprocs1", "new_n1", "start", "count"):
+            return ast.copy_location(ast.Assign(targets=[ast.Name(id=node.target.id, ctx=ast.Store())],
+                                                value=ast.BinOp(left=ast.Name(id=node.target.id, ctx=ast.Load()), op=node.op, right=node.value)), node)
+        return node
+
+
+def rw_expand_aug(tree, rel):
+    return _ExpandAug().visit(tree)
+
+
+def rw_doc_and_unused(tree, rel):
+    """a docstring for every function that has none, and an unused local at the top of every non-kernel function"""
+    kernel = rel in U.KERNELS
+    for fn in [n for n in ast.walk(tree) if isinstance(n, ast.FunctionDef)]:
+        has_doc = fn.body and isinstance(fn.body[0], ast.Expr) and isinstance(fn.body[0].value, ast.Constant) and isinstance(fn.body[0].value.value, str)
+        new = []
+        if not has_doc:
+            new.append(ast.Expr(value=ast.Constant(value="Documented by the self-test.")))
+        if not kernel and not any(isinstance(d, ast.Name) and d.id in ("property", "staticmethod") or isinstance(d, ast.Attribute) for d in fn.decorator_list):
+            k = 1 if has_doc else 0
+            fn.body[k:k] = [ast.Assign(targets=[ast.Name(id="pgv_unused_local", ctx=ast.Store())], value=ast.Constant(value=0))]
+        fn.body[0:0] = new
+    return tree
+
+
+class _ExtractTemp(ast.NodeTransformer):
+    """x = a <op> b  (a compound)  ->  pgv_tmpN = a ; x = pgv_tmpN <op> b    in plain function bodies"""
+
+    def __init__(self):
+        self.k = 0
+
+    def _blk(self, body):
+        out = []
+        for st in body:
+            if isinstance(st, ast.Assign) and len(st.targets) == 1 and isinstance(st.value, ast.BinOp) and \
+                    isinstance(st.value.left, (ast.BinOp, ast.Call, ast.Subscript)) and self.k % 3 == 0 and \
+                    not any(isinstance(n, (ast.Lambda, ast.ListComp, ast.GeneratorExp)) for n in ast.walk(st)):
+                nm = f"pgv_tmp{self.k}"
+                out.append(ast.Assign(targets=[ast.Name(id=nm, ctx=ast.Store())], value=st.value.left))
+                st.value.left = ast.Name(id=nm, ctx=ast.Load())
+            if isinstance(st, ast.Assign):
+                self.k += 1
+            out.append(st)
+        return out
+
+    def generic_visit(self, node):
+        super().generic_visit(node)
+        if isinstance(node, (ast.FunctionDef, ast.For, ast.While, ast.If, ast.With)):
+            for f in ("body", "orelse"):
+                b = getattr(node, f, None)
+                if b:
+                    setattr(node, f, self._blk(b))
+        return node
+
+
+def rw_extract_temp(tree, rel):
+    if rel in U.KERNELS:
+        return tree          # pyccel needs declared stack arrays etc.; kernels are left alone
+    return _ExtractTemp().visit(tree)
+
+
 BENIGN = {"reformat": rw_reformat, "commute-mult": rw_commute, "add-unrelated-code": rw_addcode, "rename-locals": rw_rename,
-          "rename-some-locals": rw_rename_some}
+          "rename-some-locals": rw_rename_some, "insert-pass": rw_insert_pass, "extract-temporary": rw_extract_temp, "docstring-and-unused-local": rw_doc_and_unused, "expand-augassign": rw_expand_aug}
 
 
 def make_variant(name, dst: Path):
@@ -122,7 +214,7 @@ def make_variant(name, dst: Path):
 
 def run_checks(root: Path, pids, evdir: Path, jobs=8):
     def one(pid):
-        env = dict(os.environ, PGVERIF_REPO=str(root), PGVERIF_EVIDENCE_DIR=str(evdir))
+        env = dict(os.environ, PGVERIF_REPO=str(root), PGVERIF_EVIDENCE_DIR=str(evdir), PGVERIF_NO_SELFTEST="1", VERIF_TIER="quick")
         p = subprocess.run([PY, "-m", "pgverif", "check", pid], cwd=str(VERIF), env=env, capture_output=True, text=True, timeout=1800)
         lines = [l for l in p.stdout.splitlines() if "VIOLATED" in l or l.startswith("ANALYSIS-ERROR")]
         return pid, p.returncode, lines
@@ -130,7 +222,7 @@ def run_checks(root: Path, pids, evdir: Path, jobs=8):
         return list(ex.map(one, pids))
 
 
-def run_selftest(pids, jobs=8, verbose=True, variants=None, seeded=True):
+def run_selftest(pids, jobs=8, verbose=True, variants=None, seeded=True, write=True):
     tmp = Path(tempfile.mkdtemp(prefix="pgverif_selftest_"))
     report = {"benign": {}, "breaking": {}}
     bad = 0
@@ -178,6 +270,7 @@ def run_selftest(pids, jobs=8, verbose=True, variants=None, seeded=True):
     tb = sum(len(v) for v in report["benign"].values())
     nk = sum(1 for rc in report["breaking"].values() if rc == 1)
     print(f"selftest: benign variants silent {nb}/{tb}; seeded changes reported {nk}/{len(report['breaking'])}")
-    (VERIF / "evidence").mkdir(exist_ok=True)
-    (VERIF / "evidence" / "selftest.json").write_text(json.dumps(report, indent=1))
+    if write:
+        (VERIF / "evidence").mkdir(exist_ok=True)
+        (VERIF / "evidence" / "selftest.json").write_text(json.dumps(report, indent=1))
     return 0 if bad == 0 else 1
